@@ -11,6 +11,7 @@ EXPLANATION = (
     "[CSUM-COVER] the checksum function sums exactly positions 2..18 and reduces & 0xff. [SER-CONST] marker bytes and packet length agree among the client, decode_usb and encode_usb. Since the third round the verdicts of BUF-BOUND / BUF-PROGRESS / SER-DELIVER / SCAN-PROGRESS come from rules_serial.py: WaveShareNmea2000Gateway._receive_impl is interpreted (absint.py) with one persistent client object on streams over three byte classes (AA, 55, a byte that is neither), cut into reads in many ways, the packet decoder replaced by an oracle that accepts exactly the stream's packets and otherwise returns None or raises; marker-free noise must cost nothing, marker-bearing noise at most the next packet, the held-back bytes stay below one read plus two packets, every call returns. CSUM-DOM / CSUM-COVER / SER-CONST are decided on decode_usb and calculate_canbus_checksum interpreted (linear-sum domain; the one undecidable comparison answered both ways). The CFG rules run as confirmation. UNDECIDED: 'at most the first following "
     "packet is lost', no loss under marker-free noise (needs stream exploration)."
     " Seventh round: [CSUM-DOM] decode_usb is interpreted twice on one decoder object built by the interpreted constructor, for each answer of the checksum comparison: what the first packet leaves behind (a 'warned already' set) must not let the second one through."
+    ' Eighth round: the client stand-in of the serial streams carries every attribute the constructor binds to a value the interpreter can evaluate (dictionaries of counters, optional arguments at their defaults).'
 )
 ASSUMPTIONS = ["CPython ast parser", "bytearray.find returns the first occurrence or -1", "StreamReader.read(n) returns at most n bytes", "cfg.py exception-edge model"]
 
